@@ -536,6 +536,38 @@ func TestCheck(t *testing.T) {
 		}
 		c.SetExhaustive("charset_roundtrip", false)
 
+		// every double-byte code point of the Kanji-mode ranges (0x8140-0x9FFC, 0xE040-0xEBBF), in Kanji mode
+		{
+			ks := qrx.KanjiRunes()
+			chunk := 60
+			ci := 0
+			for off := 0; off < len(ks); off += chunk {
+				ci++
+				if !c.Mine(ci) {
+					continue
+				}
+				end := off + chunk
+				if end > len(ks) {
+					end = len(ks)
+				}
+				cs := RTCase{Charset: "Shift_JIS", Name: []string{"Shift_JIS", "SJIS"}[ci%2], Text: string(ks[off:end])}
+				c.Note("kanji_mode_all_code_points", "", true, hx.HashS("kanji", cs.Text), func() any { return cs })
+				if !c.Enum("kanji_mode_all_code_points", "roundtrip", cs, func(v any) []any {
+					t := v.(RTCase)
+					rs := []rune(t.Text)
+					if len(rs) < 2 {
+						return nil
+					}
+					a, b := t, t
+					a.Text, b.Text = string(rs[:len(rs)/2]), string(rs[len(rs)/2:])
+					return []any{a, b}
+				}) {
+					break
+				}
+			}
+			c.SetExhaustive("kanji_mode_all_code_points", true)
+		}
+
 		// (b) no hint: valid UTF-8 decodes as itself (adversarial for the guesser)
 		c.Rapid("no_hint_utf8", c.N(1200, 12000), func(t *rapid.T) {
 			pools := [][]rune{[]rune("ｱｲｳｴｵｶｷｸｹｺﾊﾟ"), []rune("«»¡¿·×÷°±²³µ¶"), []rune("éüñßÆøÅç"), []rune("漢字仮名日本語"), []rune("😀🚀𝄞"), []rune("abcXYZ 019"), []rune("\ufeff "), []rune("дЖλΩ")}
